@@ -554,6 +554,8 @@ def run(rep: Report, prog: Program, tier: str) -> None:
                  "abandoning a partially reliable message never abandons, loses or blocks chunks of other messages (rules C06-WHOLE / C06-RECV / C06-ITER)", 100)
 
     leak_rule(rep, prog, PROP, "C02-LEAK", tier)
+    from .sctploop import loop_rule
+    loop_rule(rep, prog, PROP, "C02-LOOP", tier)
 
 
 def leak_rule(rep: Report, prog: Program, PROP: str, RULE: str, tier: str) -> None:
